@@ -794,6 +794,11 @@ def jobs(tier: str):
             out.append(dict(name=f"resp/{recipe}/header{n}", family="resp", recipe=recipe, what="header", n=n))
             if n <= 2:  # each quoted cookie character renders up to 4 placeholder characters: 3 exhaust the class-correct pool (C13/C16 go to 4)
                 out.append(dict(name=f"resp/{recipe}/cookie{n}", family="resp", recipe=recipe, what="cookie", n=n, weight=5 ** n))
+    for recipe in ("text-media-with-charset", "html-charset-latin1", "text-media-not-text", "json-kwargs"):
+        out.append(dict(name=f"resp/{recipe}/status", family="resp", recipe=recipe, what="status", weight=70))
+        out.append(dict(name=f"resp/{recipe}/header1", family="resp", recipe=recipe, what="header", n=1))
+    for n in (0, 1, 2):
+        out.append(dict(name=f"resp/html-charset-latin1/text{n}", family="resp", recipe="html-charset-latin1", what="text", n=n))
     for n in range(0, b["text_chars"] + 1):
         out.append(dict(name=f"resp/text-bytes/body{n}", family="resp", recipe="text-bytes", what="body", n=n))
         out.append(dict(name=f"resp/text-bytes/body{n}/HEAD", family="resp", recipe="text-bytes", what="body", n=n, method="HEAD"))
